@@ -12,6 +12,7 @@ import (
 	"fmt"
 	"math/big"
 	"net"
+	"net/netip"
 	"strconv"
 	"strings"
 
@@ -243,6 +244,7 @@ type hMemStorage struct {
 	db     map[string][]byte
 	fail   map[string]bool
 	radius []byte // 32 bytes big-endian, nil = max
+	onGet  func() // scripted fault: runs inside Get before it answers (e.g. a table change during the store read)
 }
 
 func newMemStorage() *hMemStorage {
@@ -250,7 +252,10 @@ func newMemStorage() *hMemStorage {
 }
 
 func (m *hMemStorage) Get(contentKey []byte, contentId []byte) ([]byte, error) {
-	if m.fail[string(contentId)] {
+	if m.onGet != nil {
+		m.onGet()
+	}
+	if m.fail[string(contentId)] { // scripted I/O error, also for a key that is held
 		return nil, fmt.Errorf("storage failure")
 	}
 	if c, ok := m.db[string(contentId)]; ok {
@@ -371,7 +376,33 @@ func c11parseIns(s string) []c11ins {
 }
 
 // hTableStr prints the snapshot of an instance's table, registering tags.
-func hTableStr(inst *portalwire.VerifHInstance, t *hTags) string {
+func hTableStr(inst *portalwire.VerifHInstance, t *hTags) string { return hTableStrU(inst, t, nil) }
+
+// hFirstEndpoints: for every id of the insert list the endpoint of the FIRST record inserted for it - the only endpoint a
+// liveness flag set at insertion can refer to.
+type hEndpoint struct {
+	ip   netip.Addr
+	port int
+}
+
+func hUncheckedEndpoints(ins []c11ins) map[enode.ID]hEndpoint {
+	first := map[enode.ID]hEndpoint{}
+	for _, x := range ins {
+		n, err := hNodeFromBytes(x.enr)
+		if err != nil {
+			continue
+		}
+		if _, ok := first[n.ID()]; !ok {
+			first[n.ID()] = hEndpoint{n.IPAddr(), n.UDP()}
+		}
+	}
+	return first
+}
+
+// hTableStrU: as hTableStr; an entry whose current record has another endpoint than the first record inserted for it (a record
+// update with a new address or port took place) is reported as not live whatever the table's flag says: that endpoint was
+// never liveness-checked (ground truth of the insert history).
+func hTableStrU(inst *portalwire.VerifHInstance, t *hTags, first map[enode.ID]hEndpoint) string {
 	snap := inst.Snapshot()
 	bs := make([]string, len(snap))
 	for bi, b := range snap {
@@ -385,6 +416,9 @@ func hTableStr(inst *portalwire.VerifHInstance, t *hTags) string {
 			l := 0
 			if e.Live {
 				l = 1
+				if fe, ok := first[e.Node.ID()]; ok && (fe.ip != e.Node.IPAddr() || fe.port != e.Node.UDP()) {
+					l = 0
+				}
 			}
 			es[i] = hRecStr(t.tag(eb), e.Node, len(eb), true) + ":" + strconv.Itoa(l)
 		}
